@@ -155,6 +155,9 @@ func histConfig(a vh.Args, i int) histCfg {
 	// Snappy entries with the concurrent and with the on-disk kind (entries applied
 	// in batches), PreVote on and off; with CheckQuorum all four combinations occur
 	// in the first four
+	// power loss (strict file system): the on-disk history and the one that has no
+	// graceful restart
+	cfg.powerLoss = i%4 == 1 || i%4 == 3
 	if i < 4 {
 		cfg.entrySnappy = i != 2
 		cfg.snapSnappy = i == 0 || i == 2
@@ -339,7 +342,7 @@ func dims(c histCfg) string {
 		name string
 	}{{c.onDisk, "ondisk"}, {c.notifyCommit, "notifycommit"}, {c.sessions, "sessions"}, {c.lateJoin && c.nonVoting, "latejoin"},
 		{c.membership, "membership"}, {c.snapshotOps, "snapshotops"}, {c.queryLog, "querylog"}, {c.quiesce, "quiesce"}, {c.restore, "restore"},
-		{c.entrySnappy, "entrysnappy"}, {c.snapSnappy, "snapsnappy"}, {c.preVote, "prevote"}} {
+		{c.powerLoss, "powerloss"}, {c.entrySnappy, "entrysnappy"}, {c.snapSnappy, "snapsnappy"}, {c.preVote, "prevote"}} {
 		if x.on {
 			d = append(d, x.name)
 		}
